@@ -172,7 +172,10 @@ def gen(seed, V, tier, index, bias=None):
             continue
         t = rng.choice(live_tables)
         r = rng.random()
-        if fam["mutator"] and r < 0.3:
+        if rng.random() < 0.08:
+            # an init (often a reload) in the middle of the client phase: after data was modified
+            ev = ["init", rng.choice(live_tables + ["public"]), rng.choice(M.GROUPS9), rng.random() < 0.7]
+        elif fam["mutator"] and r < 0.3:
             ev = gen_mutation(rng, V, t, pred, cfg["allow_known"])
         elif fam["walker"] and r < 0.4:
             gs = [g for g in pred.tprops.get(t, ()) if g in E.LAZY_GROUPS]
@@ -313,6 +316,13 @@ def c10_strata():
                                          "crystal_structure", "magnetic_ff", "activation"]]
     for g in E.LAZY_GROUPS:
         out.append(two + [["mutate_walk", "T1", g, 3, "instance"]])
+    # stale derived state: modify T1, reload one group of T1, then build T2 from scratch
+    for target, atom in (("_density", [26, 0, 0]), ("_mass", [28, 0, 0])):
+        for g in M.GROUPS9:
+            out.append(full + [["mutate", "T1", atom, target], ["init", "T1", g, True], ["newtable", "T2"]] +
+                       [["init", "T2", gg, False] for gg in ["mass", "density", "neutron", "xray", "emission",
+                                                            "covalent_radius", "crystal_structure", "magnetic_ff",
+                                                            "activation"]])
     # the triggers of the open known findings, so that they are exercised (and attributed) every batch
     out.append(full + [["mutate", "T1", [85, 0, 0], "neutron_field_dataless"]])
     out.append([["newtable", "T1"], ["formula", "T1", "aa:AVG", "str"]])
